@@ -20,6 +20,11 @@ def universe_scenarios(r, wd, n, depth_choices, families, protocols, expect_trut
         qs = [dict(q) for q in r.sample(u["questions"], min(len(u["questions"]), r.randint(*nq)))]
         if r.random() < 0.5 and qs:
             qs.append(dict(qs[0]))                 # the same question again: answered from the cache
+        # a question through a chain of aliases that ends in an empty answer, asked again, then for another type
+        chains = [q for q in u["questions"] if q["name"][0] == "alias2"]
+        if chains and r.random() < 0.6:
+            c = r.choice(chains)
+            qs += [{"name": c["name"], "type": "TXT"}, {"name": c["name"], "type": "TXT"}, {"name": c["name"], "type": "A"}]
         scs.append(rc.scenario([u["hints"]], [], "forwarding" if u["fwd"] else "recursive", qs,
                                table=rc.table_entries(tab), default={"rcode": 5}, protocol=r.choice(protocols),
                                port=r.choice([53, 53, 5353, 1053]), universe=u["universe"], expect_truth=expect_truth,
